@@ -2,7 +2,7 @@ use std::io::{self, Read};
 
 use noodles_vcf::{self as vcf, variant::RecordBuf};
 
-use super::record::read_site_length;
+use super::record::{read_buf_exact, read_site_length};
 use crate::io::reader::num::read_u32_le;
 
 pub(super) fn read_record_buf<R>(
@@ -27,13 +27,11 @@ where
         usize::try_from(n).map_err(|e| io::Error::new(io::ErrorKind::InvalidData, e))
     })?;
 
-    buf.resize(l_shared, 0);
-    reader.read_exact(buf)?;
+    read_buf_exact(reader, buf, l_shared)?;
     let mut src = &buf[..];
     let (n_fmt, n_sample) = read_site(&mut src, header, record)?;
 
-    buf.resize(l_indiv, 0);
-    reader.read_exact(buf)?;
+    read_buf_exact(reader, buf, l_indiv)?;
     let mut src = &buf[..];
 
     *record.samples_mut() = read_samples(&mut src, header, n_sample, n_fmt)
@@ -45,6 +43,22 @@ where
 #[cfg(test)]
 mod tests {
     use super::*;
+
+    #[test]
+    fn test_read_record_buf_with_truncated_data() {
+        let header = vcf::Header::default();
+        let mut buf = Vec::new();
+        let mut record = RecordBuf::default();
+
+        // l_shared = l_indiv = 2^32 - 1
+        let src = [0xff, 0xff, 0xff, 0xff, 0xff, 0xff, 0xff, 0xff, 0x00];
+        let mut reader = &src[..];
+
+        assert!(matches!(
+            read_record_buf(&mut reader, &header, &mut buf, &mut record),
+            Err(e) if e.kind() == io::ErrorKind::UnexpectedEof
+        ));
+    }
 
     #[test]
     fn test_read_record_buf_with_truncated_site_length() -> io::Result<()> {
